@@ -37,7 +37,7 @@ func c01Reference(f *c07Fake, n uint64) [][]byte {
 		if f.emit&(1<<b) != 0 {
 			m1 = f.m1Value(b)
 		}
-		if f.keys&(1<<b) != 0 {
+		if f.keys&(1<<b) != 0 && f.graph != 6 {
 			m2 = []byte{f.wals[b%uint64(len(f.wals))]}
 		}
 		if m1 != nil { // the store's write at block b is visible to the later stage at block b
@@ -49,6 +49,16 @@ func c01Reference(f *c07Fake, n uint64) [][]byte {
 		}
 		// m1 runs on every block (its input is the block itself); a module that ran and emitted
 		// nothing is an empty input, not a skipped one: out runs on every block too
+		if f.graph == 5 {
+			// out reads the store and m2 only: without m2 it has no input and does not run
+			if m2 == nil {
+				continue
+			}
+			o := append([]byte{byte(len(k[0])), byte(len(k[1])), 0, byte(len(m2))}, k[0]...)
+			o = append(o, k[1]...)
+			out[b] = append(o, m2...)
+			continue
+		}
 		if f.graph == 4 {
 			// out reads the store's deltas of the block: one create/update when m1 emitted, none otherwise
 			o := []byte{0}
@@ -407,17 +417,7 @@ func c01Deliver(url string, graph int, segSize, start, stop, total uint64, want 
 			return false
 		}
 	}
-	sym.Assert(uint64(len(got)) == stop-start, "client-receives-every-block-of-the-range-once")
-	for i, d := range got {
-		b := start + uint64(i)
-		if b >= stop {
-			break
-		}
-		sym.Assert(d.Clock.Number == b, "client-receives-blocks-in-order")
-		sym.Assert(d.Clock.Id == c07ID(b), "client-receives-the-blocks-id")
-		sym.Assert(d.Output.Name == "out", "client-receives-the-output-module")
-		sym.Assert(sym.EqBytes(d.Output.MapOutput.Value, want[b]), "client-receives-the-payload-of-a-sequential-execution")
-	}
+	c01CheckDelivered(got, start, stop, want)
 	sym.Reach("delivered")
 	return true
 }
@@ -475,25 +475,53 @@ func VerifC01Linear() {
 		}
 		return nil
 	}
-	req := &pbsubstreamsrpc.Request{StartBlockNum: 0, StopBlockNum: total, Modules: mods, OutputModule: "out", ProductionMode: false}
+	// the request starts at the modules' first block or, with START=1, at any block of the first
+	// segment: the blocks below it are executed (the stores need them) but not sent
+	start := uint64(0)
+	if sym.Param("START", 0) == 1 {
+		start = uint64(sym.Choice("request-start", int(s.runtimeConfig.SegmentSize)))
+		if start >= total {
+			return
+		}
+	}
+	req := &pbsubstreamsrpc.Request{StartBlockNum: int64(start), StopBlockNum: total, Modules: mods, OutputModule: "out", ProductionMode: false}
 	if err := s.blocks(context.Background(), req, graph, resp); err != nil {
 		sym.Unreachable("linear-request-completes")
 		return
 	}
-	sym.Assert(uint64(len(got)) == total, "client-receives-every-block-of-the-range-once")
-	for i, d := range got {
-		b := uint64(i)
-		if b >= total {
+	c01CheckDelivered(got, start, total, want)
+	sym.Reach("linear-delivered")
+}
+
+// c01CheckDelivered: each block of [start, stop) at most once, in order; a block whose output
+// is empty may come without payload or not at all; a payload is exactly the reference's.
+func c01CheckDelivered(got []*pbsubstreamsrpc.BlockScopedData, start, total uint64, want [][]byte) {
+	next := start
+	for _, d := range got {
+		b := d.Clock.Number
+		sym.Assert(b >= next && b < total, "client-receives-blocks-of-the-range-in-order")
+		if b < next || b >= total {
 			break
 		}
-		sym.Assert(d.Clock.Number == b, "client-receives-blocks-in-order")
+		for ; next < b; next++ {
+			sym.Assert(want[next] == nil, "no-missing-payload")
+		}
+		next = b + 1
 		sym.Assert(d.Clock.Id == c07ID(b), "client-receives-the-blocks-id")
-		sym.Assert(d.Output != nil && d.Output.Name == "out", "client-receives-the-output-module")
-		if d.Output != nil && d.Output.MapOutput != nil {
-			sym.Assert(sym.EqBytes(d.Output.MapOutput.Value, want[b]), "client-receives-the-payload-of-a-sequential-execution")
+		var payload []byte
+		if d.Output != nil {
+			sym.Assert(d.Output.Name == "out", "client-receives-the-output-module")
+			if d.Output.MapOutput != nil {
+				payload = d.Output.MapOutput.Value
+			}
+		}
+		if want[b] == nil {
+			sym.Assert(len(payload) == 0, "no-invented-payload")
 		} else {
-			sym.Unreachable("client-receives-a-payload")
+			sym.Assert(sym.EqBytes(payload, want[b]), "client-receives-the-payload-of-a-sequential-execution")
 		}
 	}
-	sym.Reach("linear-delivered")
+	for ; next < total; next++ {
+		sym.Assert(want[next] == nil, "no-missing-payload")
+	}
 }
